@@ -67,7 +67,7 @@ def runCase (case impl : String) : String × String :=
   match (kvGet toks "it").bind Startup.itemsOfStr, (kvGet toks "k").bind Close.kindOfStr,
         (kvGet toks "warm").bind boolOfStr, kvNat toks "n" with
   | some cfg, some k, some warm, some n =>
-    if !Startup.wellOrdered cfg || cfg.any (fun it => !it.ok) then ("bad-case", "na") else
+    if !(Startup.wellOrdered cfg && Startup.staged cfg) || cfg.any (fun it => !it.ok) then ("bad-case", "na") else
     let m := strOfObs (model cfg k warm n)
     let v := match obsOfStr impl with
       | some o => if spec o then "ok" else "viol"
